@@ -26,7 +26,7 @@ MODES = {
 RULE = (
     "cases: sources (explicit topology, MPAS with all optional tables, UGRID dataset, face vertices) x (i) the pairwise walk - for ordered "
     "pairs (op_i, op_j) of the ~95-entry catalogue op_i runs first on grid A (same-grid pair) or on a grid B of another source "
-    "(cross-grid pair), then op_j is observed on A; a seeded third of the 2 x 95^2 pairs in quick, all of them in thorough; (ii) random "
+    "(cross-grid pair), then op_j is observed on A; in quick every same-grid pair that starts with a call, a third of those that start with an attribute read and a quarter of the cross-grid pairs; all 2 x 95^2 in thorough; (ii) random "
     "histories of 3..25 ops over 1..3 grids biased towards repeating an op with other arguments. Catalogue: every lazily computed "
     "Grid attribute, compute_face_areas / calculate_total_face_area over (rule, order, latlon), to_xarray x 3 formats, "
     "to_geodataframe / to_polycollection / to_linecollection over (periodic_elements, engine, projection, cache, override), ball and k-d "
@@ -345,8 +345,15 @@ def cases(tier, seed):
     n = len(names)
     pairs = [(i, j, x) for i in range(n) for j in range(n) for x in (0, 1)]
     if tier == "quick":
-        idx = rng.permutation(len(pairs))[: len(pairs) // 3]
-        pairs = [pairs[k] for k in sorted(idx)]
+        # quick: every same-grid pair whose first op is a call (calls are what can leave state behind), a third of the same-grid
+        # pairs that start with a plain attribute read, and a quarter of the cross-grid pairs
+        keep = []
+        for k, (i, j, x) in enumerate(pairs):
+            call_first = not names[i].startswith("attr:")
+            r = rng.random()
+            if (x == 0 and (call_first or r < 1 / 3)) or (x == 1 and r < 0.25):
+                keep.append(k)
+        pairs = [pairs[k] for k in keep]
     chunk = 60
     for lo in range(0, len(pairs), chunk):
         yield {"kind": "pairs", "pairs": [[names[i], names[j], x] for i, j, x in pairs[lo:lo + chunk]], "mesh": gen.random_mesh(rng, 30),
